@@ -84,7 +84,7 @@ func (s Step) IsWrite() bool {
 			return false
 		}
 		for _, o := range s.Tx {
-			if o.Op != "get" {
+			if o.Op != "get" && o.Op != "last" {
 				return true
 			}
 		}
